@@ -1,2 +1,86 @@
-(* C09 — placeholder while the proofs are being built *)
-From GV Require Import Lib.Trace Model.Ring.
+(* C09 — ring.Buffer is an unbounded FIFO byte queue.
+   Statements only; proofs live in Proofs/Ring*.v.  The model (Model/Ring.v)
+   transcribes pkg/buffer/ring/ring_buffer.go; [content] / [ring_inv]
+   (Spec/RingSpec.v) are the abstraction function and representation invariant;
+   [ring_op_spec] (Spec/RingSpec.v) says what each operation does to a FIFO
+   byte list (Spec/Fifo.v) and what it returns. *)
+From GV Require Import Lib.Trace Model.Ring Spec.Fifo Spec.RingSpec Proofs.RingProofs.
+Open Scope Z_scope.
+
+(* Every finite operation sequence on a buffer created by New(n), with arbitrary
+   arguments and arbitrary scripted readers/writers, runs without panic, and its
+   observable results are exactly those of the FIFO specification started empty;
+   the final content is the specification's final content. *)
+Theorem C09_ring_refines_fifo : forall n ops,
+  -2^63 <= n <= 2^62 -> Forall op_wf ops ->
+  exists rb0 rb outs, New n = Ret rb0 /\ run_ops rb0 ops = Ret (rb, outs) /\
+    fifo_run fifo_empty ops outs (content rb).
+Proof. exact ring_refines_fifo. Qed.
+Print Assumptions C09_ring_refines_fifo.
+
+(* The same from every state satisfying the representation invariant (every
+   cursor position, wrapped, exactly full, any capacity), and the invariant is
+   preserved. *)
+Theorem C09_ring_refines_fifo_from_any_state : forall ops rb,
+  ring_inv rb -> Forall op_wf ops ->
+  exists rb' outs, run_ops rb ops = Ret (rb', outs) /\ ring_inv rb' /\
+    fifo_run (content rb) ops outs (content rb').
+Proof. exact run_ops_spec. Qed.
+Print Assumptions C09_ring_refines_fifo_from_any_state.
+
+(* One step, spelled out: no panic, invariant kept, FIFO behaviour. *)
+Theorem C09_ring_step : forall rb o,
+  ring_inv rb -> op_wf o ->
+  exists rb' x, step rb o = Ret (rb', x) /\ ring_inv rb' /\ ring_op_spec (content rb) o x (content rb').
+Proof. exact step_spec. Qed.
+Print Assumptions C09_ring_step.
+
+Theorem C09_ring_no_panic : forall n ops,
+  -2^63 <= n <= 2^62 -> Forall op_wf ops ->
+  obind (New n) (fun rb0 => run_ops rb0 ops) <> Panic.
+Proof. exact ring_no_panic. Qed.
+Print Assumptions C09_ring_no_panic.
+
+(* Buffered / Available / Cap / Len / IsEmpty / IsFull agree with the content
+   after every operation sequence. *)
+Theorem C09_ring_accounting : forall n ops rb0 rb outs,
+  -2^63 <= n <= 2^62 -> Forall op_wf ops ->
+  New n = Ret rb0 -> run_ops rb0 ops = Ret (rb, outs) ->
+  Buffered rb = fifo_len (content rb) /\
+  Buffered rb + Available rb = Cap rb /\ 0 <= Buffered rb /\ 0 <= Available rb /\
+  Len rb = Cap rb /\
+  (IsEmpty rb = true <-> Buffered rb = 0) /\
+  (IsFull rb = true <-> Buffered rb = Cap rb /\ 0 < Cap rb).
+Proof. exact ring_accounting. Qed.
+Print Assumptions C09_ring_accounting.
+
+(* The explicit panic of New for sizes above 2^62 (math.CeilToPowerOfTwo) is
+   outside the quantifier of the theorems above. *)
+Theorem C09_new_panics_above : forall n, -2^63 <= n < 2^63 -> 2^62 < n -> New n = Panic.
+Proof. exact New_panics_above. Qed.
+Print Assumptions C09_new_panics_above.
+
+(* ---- non-vacuity: the hypotheses hold on non-trivial runs (kernel-evaluated) ---- *)
+Definition ex_ops : list op :=
+  [ OWrite [1;2;3]; ORead 2; OWrite [4;5;6];            (* cap 4: wraps, exactly full *)
+    OPeek 3; OIsFull; OWriteByte 7;                     (* two-segment peek; growth from full *)
+    OWriteTo [(2, EErr)];                               (* writer fails after 2 bytes *)
+    OReadFrom [8;9;10;11] [(1, ENil); (0, ENil); (2, EErr)];   (* short, (0,nil), error after partial *)
+    ODiscard 1; OBytes; OBuffered; OAvailable; OCap ].
+
+Example C09_ex_hyps : -2^63 <= 3 <= 2^62 /\ Forall op_wf ex_ops.
+Proof. split; [cbv; split; discriminate|]. repeat constructor; cbv; discriminate. Qed.
+
+Example C09_ex_run :
+  omap snd (obind (New 3) (fun rb0 => run_ops rb0 ex_ops)) =
+    Ret [ RWrite 3 ENil; RRead [1;2] 2 ENil; RWrite 3 ENil;
+          RPeek [3;4] [5]; RBool true; RWriteByte ENil;
+          RWriteTo (mkWtOut 2 EErr [3;4]);
+          RReadFrom (mkRfOut 3 EErr [11] [512; 1026; 1026]);
+          RDiscard 1 ENil; RBytes [6;7;8;9;10]; RInt 5; RInt 1025; RInt 1030 ] /\
+  omap (fun x => content (fst x)) (obind (New 3) (fun rb0 => run_ops rb0 ex_ops)) = Ret [6;7;8;9;10].
+Proof. split; vm_compute; reflexivity. Qed.
+
+(* a wrapped, exactly full state satisfies the invariant of the from-any-state theorem *)
+Example C09_ex_inv : ring_inv (mkRing [4;5;3;6] 4 2 2 false) /\ content (mkRing [4;5;3;6] 4 2 2 false) = [3;6;4;5].
+Proof. split; [|reflexivity]. unfold ring_inv; cbn. repeat split; try discriminate; reflexivity. Qed.
